@@ -133,7 +133,7 @@ def oracle_c17(m, entries, fm, filtered):
     expect("Grouped features", sorted(n for n in nonroot if len(parent[n][1]["children"]) > 1))
     expect("Mandatory features", sorted(n for n in nonroot if (parent[n][1]["min"], parent[n][1]["max"], len(parent[n][1]["children"])) == (1, 1, 1)))
     expect("Optional features", sorted(n for n in nonroot if (parent[n][1]["min"], parent[n][1]["max"], len(parent[n][1]["children"])) == (0, 1, 1)))
-    expect("Feature groups", sorted(f["name"] for f in feats if any(len(r["children"]) > 1 for r in f["rels"])))
+    expect("Feature groups", sorted(f["name"] for f in feats if any(len(r["children"]) > 1 or (r["min"], r["max"]) not in ((1, 1), (0, 1)) for r in f["rels"])))
     expect("Alternative groups", sorted(f["name"] for f in feats if any(len(r["children"]) > 1 and (r["min"], r["max"]) == (1, 1) for r in f["rels"])))
     expect("Or groups", sorted(f["name"] for f in feats if any(len(r["children"]) > 1 and (r["min"], r["max"]) == (1, len(r["children"])) for r in f["rels"])))
     expect("Mutex groups", sorted(f["name"] for f in feats if any(len(r["children"]) > 1 and (r["min"], r["max"]) == (0, 1) for r in f["rels"])))
@@ -170,7 +170,7 @@ def oracle_c17(m, entries, fm, filtered):
 
 def cases(ctx):
     g = ctx.gen
-    kinds = ("mandatory", "optional", "alternative", "or", "mutex", "card", "nn")
+    kinds = ("mandatory", "optional", "alternative", "or", "mutex", "card", "nn", "zero")
     yield "root-only", dict(root=spec.F("Solo"), ctcs=[])
     yield "root-only-abstract", dict(root=spec.F("Solo", abstract=True), ctcs=[])
     for n in range(1, 4 if ctx.tier == "quick" else 5):
